@@ -91,13 +91,9 @@ type c29Call struct {
 	spec c29Spec
 }
 
-func (p *c29Injector) Inject(ctx context.Context, h nethttp.Header) error {
-	call, ok := ctx.Value(c29SpecKey{}).(c29Call)
-	if !ok {
-		return nil
-	}
-	for _, e := range call.spec.Entries {
-		switch call.spec.Mode {
+func c29Apply(h nethttp.Header, spec c29Spec) {
+	for _, e := range spec.Entries {
+		switch spec.Mode {
 		case "add":
 			for _, v := range e.V {
 				h.Add(e.K, v)
@@ -110,8 +106,19 @@ func (p *c29Injector) Inject(ctx context.Context, h nethttp.Header) error {
 			h[e.K] = append([]string{}, e.V...)
 		}
 	}
+}
+
+func (p *c29Injector) Inject(ctx context.Context, h nethttp.Header) error {
+	call, ok := ctx.Value(c29SpecKey{}).(c29Call)
+	if !ok {
+		return nil
+	}
+	c29Apply(h, call.spec)
+	// what THIS call injected: the same writes on a carrier of its own
+	own := make(nethttp.Header)
+	c29Apply(own, call.spec)
 	p.mu.Lock()
-	p.injected[call.id] = c29Snapshot(h)
+	p.injected[call.id] = c29Snapshot(own)
 	p.mu.Unlock()
 	return nil
 }
